@@ -99,7 +99,13 @@ class Scheduler:
             if not self.free:
                 sys.settrace(self._tracer(st))
             try:
-                st.result = ("ok", fn())
+                r = fn()
+                if not fg and not self.free:
+                    # "the thread function has returned but the thread is still alive" is a state of its
+                    # own (what Thread.join waits for)
+                    sys.settrace(None)
+                    self.yield_point(st)
+                st.result = ("ok", r)
             except Abandoned:
                 st.result = ("abandoned",)
             except BaseException as e:      # noqa
